@@ -6,6 +6,8 @@
 From Coq Require Import List Bool.
 Import ListNotations.
 From CCT Require Import Effects.
+From CCT Require Import Prelude.
+From CCT.Gen Require Pins.
 From CCT.Gen Require Skeleton.
 From CCT.proofs Require Import EffectFacts.
 
@@ -48,9 +50,49 @@ Example C18_witness :
   /\ existsb (fun p => negb (quietb p)) Skeleton.all_skeletons = true.
 Proof. vm_compute. repeat split. Qed.
 
+(* BEGIN SOURCE PINS -- written by harness/mkpins.py; the list is what Gen/Pins.v held for the tree the model was validated against *)
+(* the functions of the package this property depends on (call-graph closure of its entry points), each with the fingerprint of its
+   logic (AST without docstrings, annotations, messages, local names): the model and the correspondence runs were validated against
+   exactly these; a change of logic in any of them breaks this obligation and the check then searches for a failing input *)
+Theorem C18_source_pinned : CCT.Gen.Pins.pinned_C18 =
+  [(U"cli.cli_gpg_sign", U"49733e37eccbec131603");
+   (U"cli.cli_sign_artifacts", U"e5623e5eff2b90c6f506");
+   (U"common.MixinKey.from_hex", U"a6e4e81c0b16461490a5");
+   (U"common.MixinKey.to_hex", U"fcdaef7ed3d503ba84df");
+   (U"common.PrivateKey.from_bytes", U"2cb488fc935b61f65bba");
+   (U"common.PrivateKey.to_bytes", U"c9564ea6ce46886b972b");
+   (U"common.PublicKey.from_bytes", U"a439db0d070397bc2b47");
+   (U"common.PublicKey.to_bytes", U"1167c2299d20a5c711f2");
+   (U"common.canonserialize", U"64fc1dee1d7349d7a920");
+   (U"common.checkformat_byteslike", U"1c9da61d15ff3a1a9f97");
+   (U"common.checkformat_gpg_fingerprint", U"86e3bb7e4431fb481dc5");
+   (U"common.checkformat_gpg_signature", U"a3c5515ffb8c9f6183ba");
+   (U"common.checkformat_hex_key", U"625afdf8f56eb4c97143");
+   (U"common.checkformat_hex_string", U"eac17f8be3d488d4b8a0");
+   (U"common.checkformat_key", U"d3466826154e389f099e");
+   (U"common.checkformat_signature", U"d544854022da28dcc399");
+   (U"common.checkformat_string", U"a139d0a4113d71e93d9f");
+   (U"common.is_gpg_signature", U"f236e9c50126a7909e84");
+   (U"common.is_hex_key", U"63c7822022cd24f926e2");
+   (U"common.is_hex_signature", U"433f44075f931ec629d6");
+   (U"common.is_hex_string", U"35e6d253e0c21ac09fca");
+   (U"common.is_signable", U"6932517519189d75eb93");
+   (U"common.load_metadata_from_file", U"f65eb5087b9ad786f4ff");
+   (U"common.write_metadata_to_file", U"7e7340650f276f577b2b");
+   (U"root_signing._check_sslib_available", U"d8315639482190c4a365");
+   (U"root_signing.fetch_keyval_from_gpg", U"c6c0dcd9c0176460544f");
+   (U"root_signing.sign_root_metadata_dict_via_gpg", U"9c9b61ae611802885662");
+   (U"root_signing.sign_root_metadata_via_gpg", U"1326ee36cd0ec7f636fb");
+   (U"root_signing.sign_via_gpg", U"0253075166ded99ab505");
+   (U"signing.serialize_and_sign", U"b494a1c320877296ecf6");
+   (U"signing.sign_all_in_repodata", U"acae37496ef25356cf28")].
+Proof. reflexivity. Qed.
+(* END SOURCE PINS *)
+
 Print Assumptions C18_criterion_sound.
 Print Assumptions C18_skeletons_pass.
 Print Assumptions C18_all_traces_two_phase.
 Print Assumptions C18_fault_before_output_keeps_file.
 Print Assumptions C18_no_partial_output.
 Print Assumptions C18_witness.
+Print Assumptions C18_source_pinned.
